@@ -345,6 +345,11 @@ def invalid_cases():
         ("valid-weighted-graph", lambda: semi.DRFNet(np.array([[0, -2.5], [0, 0]]), data).sample(1)),
         ("valid-seed-beyond-32-bits", lambda: net().sample(2, random_state=2 ** 32 + 5)),
         ("valid-seed-beyond-32-bits-edgeless", lambda: semi.DRFNet(np.zeros((2, 2)), data).sample(2, random_state=2 ** 63 - 1)),
+        # everything default_rng accepts was accepted by the pinned code
+        ("valid-seed-generator", lambda: net().sample(2, random_state=np.random.default_rng(5))),
+        ("valid-seed-seedsequence", lambda: net().sample(2, random_state=np.random.SeedSequence(5))),
+        ("valid-seed-sequence", lambda: net().sample(2, random_state=[2 ** 40, 5])),
+        ("valid-seed-numpy-int", lambda: net().sample(2, random_state=np.int64(2 ** 40))),
     ]
     return cases, valid
 
